@@ -234,6 +234,53 @@ def abort_a_fit(state, data, bases=None, hook="on_batch_end", touch_normalizatio
     state.stop_training = False
 
 
+def busy_callback(rng=True, other=True, hooks=("on_batch_end", "on_epoch_end", "on_epoch_start", "on_batch_start", "on_train_start")):
+    """Re-entrant use: a user callback that, from inside a running fit(), makes the public calls a monitoring script makes on the SAME state
+    (normalisation, psi / rho, the three gradient functions, a save to memory, the NLL metric; with rng=True also sample() and observable
+    statistics; with other=True also a one-epoch fit() of ANOTHER small state).  None of them changes the trained state's parameters, so
+    whatever the enclosing fit() is documented to do must be unaffected."""
+    import io
+    import numpy as np
+    from qucumber.callbacks import LambdaCallback
+    from qucumber.nn_states import PositiveWaveFunction
+    from qucumber.observables import SigmaZ
+    from qucumber.utils import training_statistics as TS
+    box = {"other": None, "calls": 0}
+
+    def act(s_):
+        box["calls"] += 1
+        n_ = s_.num_visible
+        sp_ = s_.generate_hilbert_space() if n_ <= 6 else None
+        smp_ = torch.zeros(2, n_, dtype=torch.double)
+        smp_[1, 0] = 1.0
+        has_ph = len(s_.networks) > 1
+        b_ = np.array([["Z"] * n_] * 2)
+        which = box["calls"] % 4
+        if sp_ is not None:
+            s_.normalization(sp_)
+            (s_.rho(sp_, sp_) if hasattr(s_, "rho") else s_.psi(sp_))
+            if which == 0:
+                s_.compute_exact_gradients(smp_.clone(), sp_, **({"bases_batch": b_} if has_ph else {}))
+            if which == 1:
+                TS.NLL(s_, smp_.clone(), sp_, **({"sample_bases": b_} if has_ph else {}))
+        s_.gradient(smp_.clone(), **({"bases": b_} if has_ph else {}))
+        if which == 2:
+            s_.positive_phase_gradients(smp_.clone(), **({"bases_batch": b_} if has_ph else {}))
+            s_.save(io.BytesIO())
+        if rng:
+            s_.sample(2, num_samples=3)
+            if which == 3:
+                SigmaZ().statistics(s_, num_samples=4, num_chains=2, burn_in=1, steps=1)
+        if other and rng and which == 1:
+            if box["other"] is None:
+                box["other"] = PositiveWaveFunction(2, 2, gpu=False)
+            box["other"].fit(torch.tensor([[0.0, 1.0], [1.0, 1.0]], dtype=torch.double), epochs=1, pos_batch_size=2, lr=0.01)
+
+    table = {"on_train_start": lambda s_: act(s_), "on_epoch_start": lambda s_, e_: act(s_), "on_epoch_end": lambda s_, e_: act(s_),
+             "on_batch_start": lambda s_, e_, b_: act(s_), "on_batch_end": lambda s_, e_, b_: act(s_)}
+    return LambdaCallback(**{h: table[h] for h in hooks})
+
+
 def reinit_and_set(state, case):
     """lifecycle step used by histories: reinitialise (the networks get NEW parameter objects), then write the case's parameters again"""
     state.reinitialize_parameters()
